@@ -72,6 +72,19 @@ var alphaManifest = []hx.Op{
 	{K: "batch", Sync: true, Sub: sub(hx.Op{K: "set", Key: "a"}, hx.Op{K: "del", Key: "b"})},
 }
 
+// large (flushable) batches that carry range deletions / range keys next to points: their WAL
+// replay path builds a flushable batch directly
+var alphaBig = []hx.Op{
+	{K: "set", Key: "b", Sync: true},
+	{K: "batch", Big: true, Sync: true, Sub: sub(hx.Op{K: "set", Key: "a"}, hx.Op{K: "delrange", Key: "b", End: "z"})},
+	{K: "set", Key: "c", Sync: true},
+	{K: "batch", Big: true, Sync: true, Sub: sub(hx.Op{K: "rkset", Key: "a", End: "c", Suf: "@1"}, hx.Op{K: "del", Key: "c"}, hx.Op{K: "set", Key: "b"})},
+	{K: "flush"},
+	{K: "set", Key: "a"},
+	{K: "batch", Big: true, Sub: sub(hx.Op{K: "merge", Key: "b"}, hx.Op{K: "delrange", Key: "a", End: "b"})},
+	{K: "reopen"},
+}
+
 var configs = map[string]hx.Config{
 	"base":         {Name: "base"},
 	"tinymem":      {Name: "tinymem", MemTableSize: 16 << 10},
@@ -128,6 +141,12 @@ func legal(cfg hx.Config, hist []hx.Op) bool {
 			continue
 		}
 		if !m.Legal(op) || !cfg.Supports(op) {
+			return false
+		}
+		if op.Big && cfg.MemTableSize == 0 {
+			// a flushable batch needs a value of half the memtable: with the 256 KiB default that is
+			// 33 unsynced 4 KiB blocks per crash point; large batches are enumerated in the
+			// small-memtable configuration only
 			return false
 		}
 		if op.K == "rkset" && cfg.FMV != 0 && cfg.FMV < 13 {
@@ -388,14 +407,14 @@ func plansFor(prop string, thorough bool) []plan {
 		return []plan{{"tinymanifest", alphaManifest, 4, false}, {"base", alphaManifest, 4, false}, {"valsep", alphaManifest, 3, false}, {"tinymanifest", alphaManifest[:8], 3, true}, {"fmv-min", alphaManifest, 3, false}}
 	case "C12":
 		if !thorough {
-			return []plan{{"base", alphaFlush, 3, false}, {"nowal", alphaFlush, 3, false}, {"tinymem", alphaFlush, 2, false}, {"valsep", alphaFlush, 2, false}}
+			return []plan{{"base", alphaFlush, 3, false}, {"nowal", alphaFlush, 3, false}, {"tinymem", alphaFlush, 3, false}, {"valsep", alphaFlush, 2, false}}
 		}
 		return []plan{{"base", alphaFlush, 4, false}, {"nowal", alphaFlush, 4, false}, {"tinymem", alphaFlush, 3, false}, {"tinymanifest", alphaFlush, 3, false}, {"valsep", alphaFlush, 3, false}, {"fmv-min", alphaFlush, 3, false}, {"base", alphaFlush[:6], 3, true}}
 	default:
 		if !thorough {
-			return []plan{{"base", alphaSync, 3, false}, {"tinymanifest", alphaSync, 2, false}, {"tinymem", alphaSync, 2, false}, {"base", alphaSync[:8], 2, true}}
+			return []plan{{"base", alphaSync, 3, false}, {"tinymanifest", alphaSync, 2, false}, {"tinymem", alphaSync, 2, false}, {"base", alphaSync[:8], 2, true}, {"tinymem", alphaBig, 3, false}}
 		}
-		return []plan{{"base", alphaSync, 4, false}, {"tinymanifest", alphaSync, 3, false}, {"tinymem", alphaSync, 3, false}, {"fmv-min", alphaSync, 3, false}, {"valsep", alphaSync, 3, false}, {"base", alphaSync[:9], 3, true}, {"tinymanifest", alphaSync[:9], 2, true}}
+		return []plan{{"base", alphaSync, 4, false}, {"tinymanifest", alphaSync, 3, false}, {"tinymem", alphaSync, 3, false}, {"fmv-min", alphaSync, 3, false}, {"valsep", alphaSync, 3, false}, {"base", alphaSync[:9], 3, true}, {"tinymanifest", alphaSync[:9], 2, true}, {"tinymem", alphaBig, 4, false}}
 	}
 }
 
